@@ -207,14 +207,18 @@ def all_names(spec: dict) -> list[str]:
 def validate_traces(chk: Check, traces: list[dict], label: str) -> list[dict]:
     """Run the total monitor over recorded traces; returns verdict records (by trace id)."""
     d = chk.scratch.sub("traces")
-    tf = d / "traces.ndjson"
-    with tf.open("w") as f:
-        for t in traces:
-            f.write(json.dumps(t) + "\n")
     cfg = "SPECIFICATION Spec\nCHECK_DEADLOCK FALSE\n"
-    r = run_tlc(chk.scratch, "Trace_CycleTracker", cfg, workers=8, env={"TRACE_FILE": str(tf)}, coverage=True)
-    chk.add_tlc(f"Trace_CycleTracker[{label}]", r)
-    vs = r.printed.get("VERDICT", [])
+    vs: list[dict] = []
+    CH = 8000   # traces per TLC run (the largest thorough family in one run passed the time limit on a busy machine)
+    for k in range(0, len(traces), CH):
+        tf = d / f"traces{k}.ndjson"
+        with tf.open("w") as f:
+            for t in traces[k : k + CH]:
+                f.write(json.dumps(t) + "\n")
+        r = run_tlc(chk.scratch, "Trace_CycleTracker", cfg, workers=8, env={"TRACE_FILE": str(tf)}, coverage=(k == 0), timeout=1800)
+        chk.add_tlc(f"Trace_CycleTracker[{label}/{k // CH}]", r)
+        vs += r.printed.get("VERDICT", [])
+        tf.unlink()
     chk.require(len(vs) == len(traces), f"monitor produced {len(vs)} verdicts for {len(traces)} traces")
     chk.cov["traces_validated_against_impl"] += len(traces)
     return vs
@@ -222,6 +226,11 @@ def validate_traces(chk: Check, traces: list[dict], label: str) -> list[dict]:
 
 def parse_and_judge(chk: Check, items: list[tuple[str, dict, list[str], Any]], max_depth: int | None, label: str, light: bool = False) -> None:
     """items: (id, openapi spec, declared names, scenario) -> run the real parser, validate traces."""
+    if len(items) > 12000:
+        # the recorded traces of a large family do not have to be in memory at once
+        for k in range(0, len(items), 12000):
+            parse_and_judge(chk, items[k : k + 12000], max_depth, label, light)
+        return
     jobs = [{"id": i, "spec": spec, "declared": decl, "want": ["events"], "timeout": 60, "light": light} for i, spec, decl, _ in items]
     env = {"PYOPENAPI_MAX_DEPTH": str(max_depth)} if max_depth is not None else {}
     res = core.parallel_py(chk.scratch, "harness.w_parse", jobs, env=env)
